@@ -37,6 +37,9 @@ type Hook struct {
 	// SlotGate: the probe waits until every hook of Slot has started (detects
 	// "not started together"). Empty = no gate.
 	Slot []string
+	// ErrKind: how a failing probe fails. 0: it leaves __call_error in the call's var stack (what the
+	// integration plugins do); 1: its function returns an error (the call's expression fails to execute).
+	ErrKind int
 }
 
 // Rec is one observation.
@@ -124,9 +127,13 @@ func New(hooks []Hook, state string) *World {
 		if aw == "" {
 			aw = h.Trigger
 		}
+		fn := "P"
+		if h.ErrKind == 1 {
+			fn = "PE"
+		}
 		roles = append(roles, workflow.NewCallRole(h.ID,
 			task.Traits{Trigger: h.Trigger, Await: aw, Timeout: "5s", Critical: h.Critical},
-			fmt.Sprintf("probe.P(\"%s\")", h.ID), ""))
+			fmt.Sprintf("probe.%s(\"%s\")", fn, h.ID), ""))
 	}
 	root := workflow.NewAggregatorRole("root", roles)
 	id, _ := uid.FromString("2oDvieFrVTi")
@@ -202,36 +209,49 @@ func (p *plugin) CallStack(data interface{}) map[string]interface{} {
 	if !ok {
 		return nil
 	}
+	// run is the probe: records start/end around a scheduling point (or the slot gate); failing = its hook
+	// is configured to fail or the driver asked for it.
+	run := func(id string) (failing bool) {
+		w := cur
+		h := w.hooks[id]
+		snap := map[string]string{}
+		for _, k := range snapKeys {
+			if v, ok := call.VarStack[k]; ok {
+				snap[k] = v
+			}
+		}
+		snap["__state"] = w.Env.Sm.Current()
+		w.started[id]++
+		w.rec(Rec{Kind: "start", ID: id, Vars: snap, Tid: vrt.ThreadID()})
+		if h != nil && len(h.Slot) > 0 {
+			vrt.WaitUntil("slot-gate:"+id, func() bool {
+				for _, o := range h.Slot {
+					if w.started[o] == 0 {
+						return false
+					}
+				}
+				return true
+			})
+		} else {
+			vrt.Yield("probe-latency:" + id)
+		}
+		failing = (h != nil && h.Fail) || w.FailNow[id]
+		w.rec(Rec{Kind: "end", ID: id, Tid: vrt.ThreadID()})
+		return
+	}
 	return map[string]interface{}{
 		"P": func(id string) string {
-			w := cur
-			h := w.hooks[id]
-			snap := map[string]string{}
-			for _, k := range snapKeys {
-				if v, ok := call.VarStack[k]; ok {
-					snap[k] = v
-				}
-			}
-			snap["__state"] = w.Env.Sm.Current()
-			w.started[id]++
-			w.rec(Rec{Kind: "start", ID: id, Vars: snap, Tid: vrt.ThreadID()})
-			if h != nil && len(h.Slot) > 0 {
-				vrt.WaitUntil("slot-gate:"+id, func() bool {
-					for _, o := range h.Slot {
-						if w.started[o] == 0 {
-							return false
-						}
-					}
-					return true
-				})
-			} else {
-				vrt.Yield("probe-latency:" + id)
-			}
-			if (h != nil && h.Fail) || w.FailNow[id] {
+			if run(id) {
 				call.VarStack["__call_error"] = "probe " + id + " failed"
 			}
-			w.rec(Rec{Kind: "end", ID: id, Tid: vrt.ThreadID()})
 			return ""
+		},
+		// PE fails by returning an error: the call's expression itself fails to execute
+		"PE": func(id string) (string, error) {
+			if run(id) {
+				return "", fmt.Errorf("probe %s failed", id)
+			}
+			return "", nil
 		},
 	}
 }
